@@ -55,6 +55,11 @@ def get_connected_subgraph(
     subgraph.is_nested_oneof = is_nested_oneof
     subgraph.source = source
     subgraph.dest = dest
-    subgraph.name = f'{source} —> {dest}, rec={is_recurrent}, oneof={is_oneof}, nested_oneof={is_nested_oneof}'
+
+    # A view shares the dict of graph attributes with the graph it was made from, so the name is set on a copy
+    subgraph.graph = {
+        **subgraph.graph,
+        'name': f'{source} —> {dest}, rec={is_recurrent}, oneof={is_oneof}, nested_oneof={is_nested_oneof}',
+    }
 
     return subgraph
